@@ -435,6 +435,64 @@ pub fn run(ctx: &Ctx) {
         "buried",
     );
 
+    // one text put through several conversions inside one evaluation: each conversion yields its own type every time
+    // (`int(t) + dec(t)` stays a type error however often `t` has been converted before)
+    let recast: Vec<EvalCase> = {
+        let texts = [
+            "12", "1700000000000000", "0000000000000012", "-000000000000012", "+1700000000000000", "170000000000000000000000", "1234567890.123456",
+            "12345678901234.5", "0.0000000000000001", "1e00000000000002", "99999999999999999999999999999999999999", "1700000000000000 ", "not a number at all",
+            "2015-07-30T03:26:13Z", "170141183460469231731687303715884105727", "١٧٠٠٠٠٠٠٠٠",
+        ];
+        let casts: [fn(Expr) -> Expr; 3] = [Expr::int, Expr::float, Expr::dec];
+        let mut out = vec![];
+        for t in texts {
+            for spelled in 0..3 {
+                let operand = || match spelled {
+                    0 => Expr::value(t.to_string()),
+                    1 => Expr::reff("t"),
+                    _ => Expr::index(Expr::reff("o"), Index::Map("t".into())),
+                };
+                let facts = pool::map(&[("t", Value::String(t.into())), ("o", pool::map(&[("t", Value::String(t.into()))]))]);
+                for c1 in casts {
+                    for c2 in casts {
+                        let a = || c1(operand());
+                        let b = || c2(operand());
+                        for e in [
+                            Expr::Vec(vec![a(), b(), a()]),
+                            Expr::add(a(), b()),
+                            Expr::eq(a(), b()),
+                            Expr::lt(b(), a()),
+                            Expr::iif(Expr::eq(a(), a()), b(), Expr::value(0)),
+                            Expr::contains(Expr::Vec(vec![a()]), b()),
+                        ] {
+                            out.push(EvalCase::plain(e, facts.clone()));
+                        }
+                    }
+                }
+            }
+        }
+        out
+    };
+    ctx.enumerate(
+        "several-conversions-of-one-text",
+        recast.len() as u64,
+        true,
+        |i, acc| {
+            let case = &recast[i as usize];
+            acc.cell(&format!("recast:{}", root_sig(&case.expr)), true);
+            if i % 211 == 0 {
+                acc.sample("recast", || case.render());
+            }
+            check_buried(case)
+        },
+        |i| {
+            let mut j = recast[i as usize].to_json();
+            j["buried"] = serde_json::json!(true);
+            j
+        },
+        "buried",
+    );
+
     // depth 2 over the coinciding family: every outer kind over every inner cell (e.g. !!i1 must stay a type error)
     let c2 = Cells2::new(vec![
         Value::Int(1),
